@@ -16,9 +16,11 @@ def parseOptNat (s : String) : Option Nat := if s = "-" then none else some s.to
 def parseEI (s : String) : Option EI :=
   match s.splitOn ":" with
   | [a, t, c, d] =>
-    if c = "a" then some ⟨parseAddr a, t.toNat!, .added, parseOptNat d⟩
-    else if c = "r" then some ⟨parseAddr a, t.toNat!, .removed, parseOptNat d⟩
-    else if c = "n" then some ⟨parseAddr a, t.toNat!, .none, parseOptNat d⟩
+    -- a removed entry may omit the entity type (`-`); the model never reads it
+    let ty := (parseOptNat t).getD 0
+    if c = "a" then some ⟨parseAddr a, ty, .added, parseOptNat d⟩
+    else if c = "r" then some ⟨parseAddr a, ty, .removed, parseOptNat d⟩
+    else if c = "n" then some ⟨parseAddr a, ty, .none, parseOptNat d⟩
     else none
   | _ => none
 
